@@ -6,14 +6,17 @@
 // gouroboros code): every reply embeds the tag of the request it answers and
 // the server's own counters,
 //
-//	local-state-query   result value = era<<48 | acquire epoch<<24 | query count;
+//	local-state-query   result value = flavour tag | era | acquire epoch | query count,
+//	                    where the flavour tag says which acquire message the server
+//	                    last accepted: volatile tip / immutable tip / point (with 16
+//	                    bits of hash(slot, block hash)), sent as acquire or re-acquire;
 //	                    GetStakeDelegDeposits echoes the credential (= query id);
 //	                    Acquire(point) fails by the point's slot (slot%4 = 1 too
 //	                    old, 2 not on chain), also as a re-acquire
 //	local-tx-monitor    Acquired(slot = epoch); HasTx(id) = parity of hash(id);
 //	                    NextTx = (epoch, cursor, request count), empty from cursor 3;
-//	                    GetSizes = (epoch, cursor, request count)
-//	local-tx-submission accept iff hash(tx) is odd, reject reason = hash(tx) | count
+//	                    GetSizes = (epoch | hash(id of the last HasTx)<<12, cursor, count)
+//	local-tx-submission accept iff hash(tx, era id) is odd, reject reason = that hash | count
 //	peer-sharing        n addresses, each carrying (n, index, request count)
 //
 // Every call is recorded as a porcupine operation (Call stamped before the
@@ -40,7 +43,6 @@ import (
 
 	"github.com/anishathalye/porcupine"
 	ouroboros "github.com/blinklabs-io/gouroboros"
-	"github.com/blinklabs-io/gouroboros/ledger"
 	"github.com/blinklabs-io/gouroboros/protocol"
 	pcommon "github.com/blinklabs-io/gouroboros/protocol/common"
 	"github.com/blinklabs-io/gouroboros/protocol/localstatequery"
@@ -57,7 +59,7 @@ func init() {
 	core.Register(&core.Monitor{
 		ID:   "C25",
 		Race: true,
-		Rule: "one case = one connection of a kind from {lsq, ltm, lts, ps, ntc-mixed (lsq+ltm+lts on one connection)} with 1..8 caller goroutines (one third of the cases 8) and at most 60 calls per protocol instance, op lists from the PRNG (lsq: GetChainBlockNo, GetEpochNo, GetStakeDelegDeposits(id), Acquire volatile/immutable/point incl. failing points, Release; ltm: HasTx(id), NextTx, GetSizes, Acquire, Release; lts: SubmitTx(tx); ps: GetPeers(0..12)); 15% of the node-to-client cases lose the connection after a PRNG number of requests, 25% run against a server that delays some replies by 1-3 ms. One evaluation = one protocol instance's history checked by porcupine; it is non-trivial when at least 4 calls were answered; distinct by the history shape (per call in Call order: goroutine, kind, outcome class, number of calls open at that moment)",
+		Rule: "one case = one connection of a kind from {lsq, ltm, lts, ps, ntc-mixed (lsq+ltm+lts on one connection)} with 1..8 caller goroutines (one third of the cases 8) and at most 60 calls per protocol instance, op lists from the PRNG (lsq: GetChainBlockNo, GetEpochNo, GetStakeDelegDeposits(id), AcquireVolatileTip / AcquireImmutableTip / Acquire(point incl. refused points) each in first-acquire and re-acquire position (38% of the lsq calls), implicit acquires by queries, Release; ltm: HasTx(id), NextTx, GetSizes, Acquire, Release; lts: SubmitTx(era 0..7, tx); ps: GetPeers(0..12)); 15% of the node-to-client cases lose the connection after a PRNG number of requests, 25% run against a server that delays some replies by 1-3 ms. One evaluation = one protocol instance's history checked by porcupine; it is non-trivial when at least 4 calls were answered; distinct by the history shape (per call in Call order: goroutine, kind, outcome class, number of calls open at that moment)",
 		MinNontrivial: 150,
 		RaceAnchors: []string{
 			"localstatequery.(*Client)", "localtxmonitor.(*Client)", "localtxsubmission.(*Client)", "peersharing.(*Client)",
@@ -180,19 +182,73 @@ func argBytes(arg uint64, n int) []byte {
 // txBytes: the "transaction" of a SubmitTx(arg) call.
 func txBytes(arg uint64) []byte { return append([]byte{0x84, 0xa0, 0xa0}, argBytes(arg, 13)...) }
 
-// lsqValue packs what a local-state-query result carries.
-func lsqValue(era, epoch, k uint32) uint64 { return uint64(era)<<48 | uint64(epoch)<<24 | uint64(k) }
-func lsqEra(k uint32) uint32              { return 1 + k%6 }
+// lsqValue packs what a local-state-query result carries: the query count
+// (20 bits), the acquire epoch (20 bits), the era the query named (3 bits) and
+// the flavour tag of the acquire the server is currently serving (19 bits).
+func lsqValue(ftag, era, epoch, k uint32) uint64 {
+	return uint64(ftag&0x7ffff)<<43 | uint64(era&7)<<40 | uint64(epoch&0xfffff)<<20 | uint64(k&0xfffff)
+}
+func lsqUnpack(v uint64) (ftag, era, epoch, k uint32) {
+	return uint32(v>>43) & 0x7ffff, uint32(v>>40) & 7, uint32(v>>20) & 0xfffff, uint32(v) & 0xfffff
+}
+func lsqEra(k uint32) uint32 { return 1 + k%6 }
+
+// Acquire flavours as the server reads them off the wire.
+const (
+	flavVolatile  = 1 // MsgAcquireVolatileTip (8) / MsgReAcquireVolatileTip (9)
+	flavImmutable = 2 // MsgAcquireImmutableTip (10) / MsgReAcquireImmutableTip (11)
+	flavPoint     = 3 // MsgAcquire (0) / MsgReAcquire (6), with the point
+)
+
+var flavName = [...]string{"none", "volatile", "immutable", "point"}
+
+// lsqFlavourTag: flavour | re-acquire bit | 16 bits of hash(point).
+func lsqFlavourTag(flavour uint32, re bool, slot uint64, hash []byte) uint32 {
+	t := flavour & 3
+	if re {
+		t |= 4
+	}
+	if flavour == flavPoint {
+		b := make([]byte, 8, 8+len(hash))
+		binary.BigEndian.PutUint64(b, slot)
+		t |= uint32(hash64(append(b, hash...))&0xffff) << 3
+	}
+	return t
+}
+
+// lsqTagOfCall: the tag an acquire call of this kind must leave at the server
+// when it is sent as an acquire (re=false) or as a re-acquire (re=true).
+func lsqTagOfCall(in input, re bool) uint32 {
+	switch in.Kind {
+	case lsqAcqImmutable:
+		return lsqFlavourTag(flavImmutable, re, 0, nil)
+	case lsqAcqPoint:
+		return lsqFlavourTag(flavPoint, re, in.Arg, argBytes(in.Arg, 32))
+	}
+	return lsqFlavourTag(flavVolatile, re, 0, nil) // explicit and implicit volatile tip
+}
 
 // ---------------------------------------------------------------- tagging server
 
 type lsqSrv struct {
 	Acq      bool
 	Epoch, K uint32
+	Tag      uint32 // flavour tag of the acquire being served
 }
 type ltmSrv struct {
 	Acq              bool
 	Epoch, Cursor, K uint32
+	Has              uint32 // 20 bits of the id of the last HasTx since the acquire
+}
+
+// ltmHasTag: what GetSizes carries about the id of the last HasTx request.
+func ltmHasTag(id []byte) uint32 { return uint32(hash64(id)>>8) & 0xfffff }
+
+// ltsEra / ltsHash: a SubmitTx(arg) call names era ltsEra(arg); the server's
+// verdict and reject reason depend on the era and the bytes it received.
+func ltsEra(arg uint64) uint16 { return uint16(arg % 8) }
+func ltsHash(era uint64, tx []byte) uint64 {
+	return hash64(append(append([]byte(nil), tx...), byte(era)))
 }
 
 type server struct {
@@ -328,9 +384,10 @@ func (s *server) handle(id uint16, m *cborx.Node, raw []byte) ([]*cborx.Node, bo
 		if body != nil && body.Kind == cborx.Tag && len(body.Items) == 1 {
 			tx = body.Items[0].StringData()
 		}
+		era, _ := u(m.At(1, 0))
 		s.ltsK++
 		s.count("srv.lts.SubmitTx")
-		h := hash64(tx)
+		h := ltsHash(era, tx)
 		if h&1 == 1 {
 			return []*cborx.Node{cborx.A(cborx.U(localtxsubmission.MessageTypeAcceptTx))}, true
 		}
@@ -386,23 +443,37 @@ func (s *server) handleLSQ(tag uint64, m *cborx.Node, raw []byte) ([]*cborx.Node
 				s.reacqKO++
 				s.mu.Unlock()
 			}
-			st.Acq = false
+			st.Acq, st.Tag = false, 0
 			s.count("srv.lsq.acquire_refused")
 			return []*cborx.Node{cborx.A(cborx.U(localstatequery.MessageTypeFailure), cborx.U(uint64(fail)))}, true
 		}
 		st.Acq = true
 		st.Epoch++
+		flavour := uint32(flavVolatile)
+		var slot uint64
+		var hash []byte
+		switch tag {
+		case localstatequery.MessageTypeAcquireImmutableTip, localstatequery.MessageTypeReacquireImmutableTip:
+			flavour = flavImmutable
+		case localstatequery.MessageTypeAcquire, localstatequery.MessageTypeReacquire:
+			flavour = flavPoint
+			slot, _ = u(m.At(1, 0))
+			if h := m.At(1, 1); h != nil {
+				hash = h.StringData()
+			}
+		}
+		st.Tag = lsqFlavourTag(flavour, re, slot, hash)
 		if re {
-			s.count("srv.lsq.reacquired")
+			s.count("srv.lsq.reacquired." + flavName[flavour])
 		} else {
-			s.count("srv.lsq.acquired")
+			s.count("srv.lsq.acquired." + flavName[flavour])
 		}
 		return []*cborx.Node{cborx.A(cborx.U(localstatequery.MessageTypeAcquired))}, true
 	case localstatequery.MessageTypeRelease:
 		if !st.Acq {
 			s.odd("local-state-query: Release while not acquired")
 		}
-		st.Acq = false
+		st.Acq, st.Tag = false, 0
 		s.count("srv.lsq.release")
 		return nil, false
 	case localstatequery.MessageTypeDone:
@@ -420,7 +491,7 @@ func (s *server) handleLSQ(tag uint64, m *cborx.Node, raw []byte) ([]*cborx.Node
 		switch {
 		case q != nil && len(q.Items) == 1 && q0 == localstatequery.QueryTypeChainBlockNo:
 			s.count("srv.lsq.query.block_no")
-			return res(cborx.A(cborx.U(1), cborx.U(lsqValue(0, st.Epoch, st.K))))
+			return res(cborx.A(cborx.U(1), cborx.U(lsqValue(st.Tag, 0, st.Epoch, st.K))))
 		case q != nil && len(q.Items) == 2 && q0 == localstatequery.QueryTypeBlock:
 			b0, _ := u(q.At(1, 0))
 			if b0 == localstatequery.QueryTypeHardFork {
@@ -430,7 +501,7 @@ func (s *server) handleLSQ(tag uint64, m *cborx.Node, raw []byte) ([]*cborx.Node
 			era, _ := u(q.At(1, 1, 0))
 			inner := q.At(1, 1, 1)
 			it, _ := u(inner.At(0))
-			v := lsqValue(uint32(era), st.Epoch, st.K)
+			v := lsqValue(st.Tag, uint32(era), st.Epoch, st.K)
 			switch it {
 			case localstatequery.QueryTypeShelleyEpochNo:
 				s.count("srv.lsq.query.epoch_no")
@@ -470,7 +541,7 @@ func (s *server) handleLTM(tag uint64, m *cborx.Node, raw []byte) ([]*cborx.Node
 	case localtxmonitor.MessageTypeAcquire:
 		st.Acq = true
 		st.Epoch++
-		st.Cursor = 0
+		st.Cursor, st.Has = 0, 0
 		s.count("srv.ltm.acquire")
 		return []*cborx.Node{cborx.A(cborx.U(localtxmonitor.MessageTypeAcquired), cborx.U(uint64(st.Epoch)))}, true
 	case localtxmonitor.MessageTypeRelease:
@@ -486,6 +557,7 @@ func (s *server) handleLTM(tag uint64, m *cborx.Node, raw []byte) ([]*cborx.Node
 		if n := m.At(1); n != nil {
 			id = n.StringData()
 		}
+		st.Has = ltmHasTag(id)
 		return []*cborx.Node{cborx.A(cborx.U(localtxmonitor.MessageTypeReplyHasTx), cborx.Bool(hash64(id)&1 == 1))}, true
 	case localtxmonitor.MessageTypeNextTx:
 		need()
@@ -505,7 +577,7 @@ func (s *server) handleLTM(tag uint64, m *cborx.Node, raw []byte) ([]*cborx.Node
 		st.K++
 		s.count("srv.ltm.get_sizes")
 		return []*cborx.Node{cborx.A(cborx.U(localtxmonitor.MessageTypeReplyGetSizes),
-			cborx.A(cborx.U(uint64(st.Epoch)), cborx.U(uint64(st.Cursor)), cborx.U(uint64(st.K))))}, true
+			cborx.A(cborx.U(uint64(st.Epoch&0xfff|st.Has<<12)), cborx.U(uint64(st.Cursor)), cborx.U(uint64(st.K))))}, true
 	}
 	s.odd("local-tx-monitor: unexpected message %x", raw)
 	return nil, false
@@ -516,6 +588,7 @@ func (s *server) handleLTM(tag uint64, m *cborx.Node, raw []byte) ([]*cborx.Node
 type lsqState struct {
 	Acq      bool
 	Epoch, K uint32
+	Tag      uint32 // flavour tag of the acquire in force (0 when not acquired)
 }
 
 func lsqFailOf(in input) int {
@@ -530,6 +603,11 @@ func lsqFailOf(in input) int {
 	return -1
 }
 
+// lsqStep: an acquire call made while a state is held goes out as a
+// re-acquire of the same flavour, otherwise as an acquire; every later query
+// result must carry exactly that flavour (and point), the epoch it opened and
+// the running query count. A query on a client that holds no state acquires
+// the volatile tip first.
 func lsqStep(state, inp, outp interface{}) []interface{} {
 	s, in, out := state.(lsqState), inp.(input), outp.(output)
 	nq := uint32(0) // queries the call sends
@@ -539,23 +617,25 @@ func lsqStep(state, inp, outp interface{}) []interface{} {
 	case lsqEpochNo, lsqDeposits:
 		nq = 2
 	}
+	released := lsqState{false, s.Epoch, s.K, 0}
+	acquired := lsqState{true, s.Epoch + 1, s.K, lsqTagOfCall(in, s.Acq)}
 	if out.St == stNoAnswer {
 		// any prefix of the call's effects
 		res := []interface{}{s}
 		switch in.Kind {
 		case lsqAcqVolatile, lsqAcqImmutable, lsqAcqPoint:
 			if lsqFailOf(in) >= 0 {
-				res = append(res, lsqState{false, s.Epoch, s.K})
+				res = append(res, released)
 			} else {
-				res = append(res, lsqState{true, s.Epoch + 1, s.K})
+				res = append(res, acquired)
 			}
 		case lsqRelease:
-			res = append(res, lsqState{false, s.Epoch, s.K})
+			res = append(res, released)
 		default:
-			for _, b := range []lsqState{s, {true, s.Epoch + 1, s.K}} {
+			for _, b := range []lsqState{s, acquired} {
 				for j := uint32(0); j <= nq; j++ {
 					if b.Acq {
-						res = append(res, lsqState{true, b.Epoch, b.K + j})
+						res = append(res, lsqState{true, b.Epoch, b.K + j, b.Tag})
 					}
 				}
 			}
@@ -567,24 +647,24 @@ func lsqStep(state, inp, outp interface{}) []interface{} {
 		f := lsqFailOf(in)
 		if out.St == stAcqFail {
 			if f >= 0 && uint64(f) == out.A {
-				return []interface{}{lsqState{false, s.Epoch, s.K}}
+				return []interface{}{released}
 			}
 			return nil
 		}
 		if f < 0 {
-			return []interface{}{lsqState{true, s.Epoch + 1, s.K}}
+			return []interface{}{acquired}
 		}
 		return nil
 	case lsqRelease:
 		if out.St == stOK {
-			return []interface{}{lsqState{false, s.Epoch, s.K}}
+			return []interface{}{released}
 		}
 		return nil
 	}
 	if out.St != stOK {
 		return nil
 	}
-	era, e, k := uint32(out.A>>48), uint32(out.A>>24)&0xffffff, uint32(out.A)&0xffffff
+	ftag, era, e, k := lsqUnpack(out.A)
 	if k != s.K+nq {
 		return nil
 	}
@@ -594,9 +674,13 @@ func lsqStep(state, inp, outp interface{}) []interface{} {
 	if in.Kind == lsqDeposits && out.B != in.Arg {
 		return nil
 	}
-	// the client may (and, when not acquired, must) acquire first
-	if (s.Acq && e == s.Epoch) || e == s.Epoch+1 {
-		return []interface{}{lsqState{true, e, k}}
+	// answered from the state in force ...
+	if s.Acq && e == s.Epoch && ftag == s.Tag {
+		return []interface{}{lsqState{true, e, k, ftag}}
+	}
+	// ... or after the call's own (volatile tip) acquire
+	if e == acquired.Epoch && ftag == acquired.Tag {
+		return []interface{}{lsqState{true, e, k, ftag}}
 	}
 	return nil
 }
@@ -604,26 +688,37 @@ func lsqStep(state, inp, outp interface{}) []interface{} {
 type ltmState struct {
 	Acq              bool
 	Epoch, Cursor, K uint32
+	Has              uint32
 }
 
 func ltmStep(state, inp, outp interface{}) []interface{} {
 	s, in, out := state.(ltmState), inp.(input), outp.(output)
-	acquired := ltmState{true, s.Epoch + 1, 0, s.K}
+	acquired := ltmState{true, s.Epoch + 1, 0, s.K, 0}
+	released := ltmState{false, s.Epoch, s.Cursor, s.K, s.Has}
+	// effect of the query itself on an acquired state
+	after := func(b ltmState) ltmState {
+		b.K++
+		switch in.Kind {
+		case ltmHasTx:
+			b.Has = ltmHasTag(argBytes(in.Arg, 8))
+		case ltmNextTx:
+			if b.Cursor < 3 {
+				b.Cursor++
+			}
+		}
+		return b
+	}
 	if out.St == stNoAnswer {
 		res := []interface{}{s}
 		switch in.Kind {
 		case ltmAcquire:
 			res = append(res, acquired)
 		case ltmRelease:
-			res = append(res, ltmState{false, s.Epoch, s.Cursor, s.K})
+			res = append(res, released)
 		default:
 			for _, b := range []ltmState{s, acquired} {
-				if !b.Acq {
-					continue
-				}
-				res = append(res, b, ltmState{true, b.Epoch, b.Cursor, b.K + 1})
-				if in.Kind == ltmNextTx && b.Cursor < 3 {
-					res = append(res, ltmState{true, b.Epoch, b.Cursor + 1, b.K + 1})
+				if b.Acq {
+					res = append(res, b, after(b))
 				}
 			}
 		}
@@ -636,7 +731,7 @@ func ltmStep(state, inp, outp interface{}) []interface{} {
 	case ltmAcquire:
 		return []interface{}{acquired}
 	case ltmRelease:
-		return []interface{}{ltmState{false, s.Epoch, s.Cursor, s.K}}
+		return []interface{}{released}
 	}
 	// a query is sent from the acquired state; a client that is not acquired
 	// acquires first
@@ -644,29 +739,21 @@ func ltmStep(state, inp, outp interface{}) []interface{} {
 	if !s.Acq {
 		b = acquired
 	}
+	ok := false
 	switch in.Kind {
 	case ltmHasTx:
-		want := uint64(0)
-		if hash64(argBytes(in.Arg, 8))&1 == 1 {
-			want = 1
-		}
-		if out.A == want {
-			return []interface{}{ltmState{true, b.Epoch, b.Cursor, b.K + 1}}
-		}
+		ok = (hash64(argBytes(in.Arg, 8))&1 == 1) == (out.A == 1) && out.A <= 1
 	case ltmNextTx:
 		if out.Empty {
-			if b.Cursor >= 3 {
-				return []interface{}{ltmState{true, b.Epoch, b.Cursor, b.K + 1}}
-			}
-			return nil
-		}
-		if b.Cursor < 3 && out.A == uint64(b.Epoch) && out.B == uint64(b.Cursor) && out.C == uint64(b.K+1) {
-			return []interface{}{ltmState{true, b.Epoch, b.Cursor + 1, b.K + 1}}
+			ok = b.Cursor >= 3
+		} else {
+			ok = b.Cursor < 3 && out.A == uint64(b.Epoch) && out.B == uint64(b.Cursor) && out.C == uint64(b.K+1)
 		}
 	case ltmSizes:
-		if out.A == uint64(b.Epoch) && out.B == uint64(b.Cursor) && out.C == uint64(b.K+1) {
-			return []interface{}{ltmState{true, b.Epoch, b.Cursor, b.K + 1}}
-		}
+		ok = out.A == uint64(b.Epoch&0xfff|b.Has<<12) && out.B == uint64(b.Cursor) && out.C == uint64(b.K+1)
+	}
+	if ok {
+		return []interface{}{after(b)}
 	}
 	return nil
 }
@@ -681,7 +768,7 @@ func ltsStep(state, inp, outp interface{}) []interface{} {
 	if out.St != stOK {
 		return nil
 	}
-	h := hash64(txBytes(in.Arg))
+	h := ltsHash(uint64(ltsEra(in.Arg)), txBytes(in.Arg))
 	if out.A == 1 { // accepted
 		if h&1 == 1 {
 			return []interface{}{ctrState{s.K + 1}}
@@ -709,8 +796,17 @@ func psStep(state, inp, outp interface{}) []interface{} {
 }
 
 func describeOp(in, out interface{}) string {
-	i := in.(input)
-	return fmt.Sprintf("%s(%#x) -> %s", i.Kind, i.Arg, out.(output))
+	i, o := in.(input), out.(output)
+	if (i.Kind == lsqBlockNo || i.Kind == lsqEpochNo || i.Kind == lsqDeposits) && o.St == stOK {
+		ftag, era, e, k := lsqUnpack(o.A)
+		re := ""
+		if ftag&4 != 0 {
+			re = "re-"
+		}
+		return fmt.Sprintf("%s(%#x) -> ok(served under %sacquire %s point-tag %#x, epoch %d, era %d, count %d, echo %#x)",
+			i.Kind, i.Arg, re, flavName[ftag&3], ftag>>3, e, era, k, o.B)
+	}
+	return fmt.Sprintf("%s(%#x) -> %s", i.Kind, i.Arg, o)
 }
 
 func modelFor(id uint16) porcupine.Model {
@@ -744,7 +840,7 @@ func tagMismatch(in input, out output) bool {
 	case ltmHasTx:
 		return (hash64(argBytes(in.Arg, 8))&1 == 1) != (out.A == 1)
 	case ltsSubmit:
-		h := hash64(txBytes(in.Arg))
+		h := ltsHash(uint64(ltsEra(in.Arg)), txBytes(in.Arg))
 		return (h&1 == 1) != (out.A == 1) || (out.A == 0 && out.B != h)
 	case psGetPeers:
 		return out.A != in.Arg || (in.Arg > 0 && out.B != in.Arg)
@@ -869,7 +965,7 @@ func (cl *clients) exec1(in input) output {
 		}
 		return output{A: uint64(a), B: uint64(b), C: uint64(c)}
 	case ltsSubmit:
-		err := cl.lts.SubmitTx(uint16(ledger.EraIdConway), txBytes(in.Arg))
+		err := cl.lts.SubmitTx(ltsEra(in.Arg), txBytes(in.Arg))
 		if err == nil {
 			return output{A: 1}
 		}
@@ -933,15 +1029,15 @@ func genOp(r *core.Rand, id uint16, g, seq int, salt uint64) input {
 	switch id {
 	case protoLSQ:
 		switch x := r.Intn(100); {
-		case x < 25:
+		case x < 22:
 			return input{lsqBlockNo, 0}
-		case x < 40:
+		case x < 35:
 			return input{lsqEpochNo, 0}
-		case x < 72:
+		case x < 62:
 			return input{lsqDeposits, arg}
-		case x < 82:
+		case x < 74:
 			return input{lsqAcqVolatile, 0}
-		case x < 88:
+		case x < 86:
 			return input{lsqAcqImmutable, 0}
 		default:
 			// slot%4: 0 and 3 are acquired, 1 is refused as too old, 2 as not on
@@ -1439,7 +1535,7 @@ func judge(c *core.Ctx, i int, plan *casePlan, id uint16, ops []*rec, end int64,
 			"case": i, "kind": plan.Kind, "protocol": name, "goroutines": plan.G, "connection_lost_after_requests": plan.KillAfter,
 			"delayed_replies": plan.Slow, "history": listing(), "mismatching_answers": bad, "longest_linearizable_prefix": longest,
 			"server_oddities": oddities,
-			"reading": "g<goroutine> [call stamp, return stamp] call -> answer; lsq values are era<<48|epoch<<24|count, ltm (epoch,cursor,count), lts reject (hash,count), ps (n,tag,count)",
+			"reading": "g<goroutine> [call stamp, return stamp] call -> answer; lsq results name the acquire flavour (and point) the server was serving, its epoch, the era and the query count; ltm NextTx (epoch,cursor,count), GetSizes (epoch|hash(last HasTx id)<<12,cursor,count); lts reject (hash(tx,era),count); ps (n,tag,count)",
 		})
 	}
 }
